@@ -91,7 +91,7 @@ def rule_inventory(ctx):
     pa = prof.get("dev") == "abort" and prof.get("release") == "abort"
     ctx.ob(R, "profile panic=abort", pa, "node/Cargo.toml sets panic=\"abort\" for dev and release (a panic in any task kills the node; lock poisoning cannot be observed): %s" % prof)
     table = ctx.table("panic_sites.json")
-    auto, ntab, new = common.match_table(ctx, R, sites, table, pa, "the network entry points")
+    auto, ntab, new = common.match_table(ctx, R, sites, table, pa, "the network entry points", closure=cl)
     ctx.floor(R, "bodies in closure", len(cl), 700)
     ctx.floor(R, "panic-capable sites inventoried", len(sites), 150)
     ctx.counts["C10.1:auto_discharged"] = sum(auto.values())
